@@ -47,6 +47,7 @@ structure World where
   dbAcls   : List (Nat × Acl) := []
   /-- C15: after `restart p n` — (store key, n, full listing persisted before the restart) -/
   limited  : List (Nat × Int × List Nat) := []     -- source peer's entry hashes at sync time
+  rputFail : List (Nat × Nat) := []              -- per store: injected failures of the `_remoteHeads` Put still to be matched with batches
   partialStores : List Nat := []                  -- stores loaded with a limit below what is persisted (until the next unlimited load)
   /-- C05: per store key, the entries seen listed at rest or acknowledged to their writer: all of
   them are covered by the cached heads, so a clean restart followed by `Load(-1)` must list them -/
@@ -204,12 +205,24 @@ def World.onHeads (w : World) (toks : List String) : World :=
 def World.onLoadEnd (w : World) (toks : List String) : World :=
   let p := peerNum (toks.getD 1 "")
   let logs := parseLogs w (toks.getD 2 "")
-  w.setStore p ((w.store p).loadEnd w.acl logs)
+  let k := w.key p
+  match w.rputFail.find? (fun (x : Nat × Nat) => x.1 == k && x.2 > 0) with
+  | some x =>
+    -- the `_remoteHeads` Put of this round failed (injected): merged and indexed, but neither cached nor
+    -- reported: what the round brought is not owed after a restart until a later round succeeds
+    let s := w.store p
+    let s' := s.loadEndPutFailed w.acl logs
+    let brought := (s'.log.entries.map (·.hash)).filter (fun h => !(s.log.entries.map (·.hash)).contains h)
+    { w.setStore p s' with rputFail := (k, x.2 - 1) :: w.rputFail.filter (fun (y : Nat × Nat) => y.1 != k),
+                           unacked := brought ++ w.unacked,
+                           -- (the progress events of the fetches had already moved the status; the final update is skipped)
+                           resync := k :: w.resync }
+  | none => w.setStore p ((w.store p).loadEnd w.acl logs)
 
 /-- the heads of the announcement being handled, with the tampered ones (`eN!`) marked -/
 def World.opHeads (w : World) : Option (List Entry) :=
   let mk (names : List String) : List Entry := names.filterMap (fun n =>
-    (w.entry (entryNum (n.replace "!" ""))).map (fun e => if n.endsWith "!" then { e with hashOk := false, sigOk := false } else e))
+    (w.entry (entryNum n)).map (fun e => if n.endsWith "!" then { e with hashOk := false, sigOk := false } else if n.endsWith "~" then { e with hashOk := false } else e))
   match w.pending.headD "" with
   | "inject" => some (mk (commaList (arg w.pending "heads")))
   | "sync" => w.syncSrc.map (fun (q, _) => sortedHeads (w.store q).log)
@@ -295,7 +308,7 @@ def World.onSynced (w : World) (toks : List String) : World :=
   if w.pending.headD "" == "inject" then
     -- manual Sync of crafted heads: the pre-check loop of `Sync` decides the returned error
     let heads := (commaList (arg w.pending "heads")).filterMap (fun n =>
-      (w.entry (entryNum (n.replace "!" ""))).map (fun e => if n.endsWith "!" then { e with hashOk := false, sigOk := false } else e))
+      (w.entry (entryNum n)).map (fun e => if n.endsWith "!" then { e with hashOk := false, sigOk := false } else if n.endsWith "~" then { e with hashOk := false } else e))
     let model := syncPrecheck w.acl (w.curDb + 1) heads
     let impl := toks.getD 2 ""
     if (model == .ok) != (impl == "ok") then
@@ -663,7 +676,13 @@ def World.step (w : World) (line : String) : World :=
     let w := if h == "restartsnap" then
         let p := peerNum (toks.getD 2 "")
         { w.setStore p (w.store p).reopened with revBlind := w.key p :: w.revBlind } else w
-    if h == "usedb" then w.useDb (natOr (toks.getD 2 "") 0)
+    if h == "snapcross" then
+      -- loading another database's snapshot is an operation on the store that loads it: nothing of the
+      -- other database may appear there (C04 member predicate); its status may count what it read
+      let p := peerNum (toks.getD 2 "")
+      let to := natOr (toks.getD 4 "") 0
+      { w with lastOpDb := some to, resync := (p + 1000 * to) :: w.resync }
+    else if h == "usedb" then w.useDb (natOr (toks.getD 2 "") 0)
     else if h == "exchangeall" || h == "exchangeall-done" || h == "restart" then { w with lastOpDb := none }   -- touches every database of the peer
     else if ["put", "del", "add", "docput", "docdel", "docputall", "docputbatch", "sync", "pubdeliver", "exchange", "inject", "syncasync"].contains h then
       { w with lastOpDb := some w.curDb }
@@ -680,6 +699,9 @@ def World.step (w : World) (line : String) : World :=
   | "heads" => w.onHeads toks
   | "loadend" => w.onLoadEnd toks
   | "loadq" => w.onLoadQ toks
+  | "rputfail" =>
+    let k := w.key (peerNum (toks.getD 1 ""))
+    { w with rputFail := (k, natOr (toks.getD 2 "") 1) :: w.rputFail.filter (fun (y : Nat × Nat) => y.1 != k) }
   | "stats" =>
     -- C11: whenever the replicator is at rest every fetch slot is free again and nothing is counted as
     -- in progress (a slot that is never given back starves every later request once all are gone)
